@@ -25,7 +25,8 @@ fn check_break_assignment(context: &CheckerContext) -> GenericResult<()> {
         let matched_break_count = tour.stops.iter().try_fold(0, |acc, stop| {
             stop.activities()
                 .windows(stop.activities().len().min(2))
-                .flat_map(|leg| as_leg_info_with_break(context, tour, stop, leg))
+                .enumerate()
+                .flat_map(|(idx, leg)| as_leg_info_with_break(context, tour, stop, leg, idx == 0))
                 .try_fold::<_, _, GenericResult<_>>(
                     acc,
                     |acc, (from_loc, (from, to), (break_activity, vehicle_break))| {
@@ -134,6 +135,7 @@ fn as_leg_info_with_break<'a>(
     tour: &Tour,
     stop: &'a Stop,
     leg: &'a [Activity],
+    is_first_leg: bool,
 ) -> Option<LegBreakInfo<'a>> {
     let leg = match leg {
         [from, to] => Some((Some(from), to)),
@@ -142,8 +144,10 @@ fn as_leg_info_with_break<'a>(
     };
 
     if let Some((from, to)) = leg {
+        // NOTE: an activity is `to` of one leg and `from` of the next one: `from` is considered only for the first leg
+        // of the stop, otherwise a break in the middle of the stop is counted twice
         if let Some((break_activity, vehicle_break)) = once(to)
-            .chain(from.iter().cloned())
+            .chain(from.iter().cloned().filter(|_| is_first_leg))
             .flat_map(|activity| context.get_activity_type(tour, stop, activity).map(|at| (activity, at)))
             .filter_map(|(activity, activity_type)| match activity_type {
                 ActivityType::Break(vehicle_break) => Some((activity, vehicle_break)),
